@@ -1466,6 +1466,34 @@ example :
       some (some 3, some 50, some 80) := by
   decide
 
+/-- **the mixed-transaction model IS the execution of the fork's source**: for EVERY transaction (any sequence of token
+programs run by the running EVM and keeper-level nested calls, any escrow payments, any initial storage) the transaction
+executed with every SLOAD / SSTORE going through the regenerated `GetState` / `SetState`, every keeper-level call building a
+new StateDB (`applyMessage_freshStateDB`) and committing it with the regenerated `Commit` loop, and the transaction-level
+`Commit` at the end (native store first) never gets stuck and yields exactly `txResult` — outcome, final token storage,
+final escrow.  So `mixed_tx_coherent`, `mixed_tx_preserves_sum_partial` and the three defect witnesses are statements about
+the source as written. -/
+theorem mixed_tx_model_matches_statedb_source (steps : List MStep) (st : Store) (esc : Nat) :
+    iTxResult steps st esc = some (txResult steps st esc) ∧
+    (∀ p st', iNested p st' = some (nestedCall p st')) :=
+  ⟨iTxResult_eq steps st esc, iNested_eq⟩
+
+/-- the coherence theorem over the interpreted source: a coherent transaction, executed as the source says, is the
+sequential execution on one store -/
+theorem mixed_tx_coherent_source (steps : List MStep) (st : Store) (esc : Nat)
+    (hc : CoherentTx steps ⟨{ store := st }, esc⟩) : iTxResult steps st esc = some (seqResult steps st esc) := by
+  rw [iTxResult_eq, mixed_tx_coherent steps st esc hc]
+
+/-- non-vacuity of `mixed_tx_coherent_source` (a read of another holder's balance, then `bridgeCall`: coherent), and the
+first defect witness through the interpreted source: `transfer 10` then `bridgeCall 50` creates 50 tokens -/
+example :
+    CoherentTx [.evm (balanceOf 1) 0, .nested (burn 0 50) 50 0] ⟨{ store := store0 200 0 0 350 0 }, 350⟩ ∧
+    (iTxResult [.evm (transfer 0 1 10) 0, .nested (burn 0 50) 50 0] (store0 150 0 0 300 0) 300).map
+      (fun r => (r.1, r.2.1 (.bal 0), r.2.1 (.bal 1), r.2.1 .supply, r.2.2)) = some (true, 140, 10, 250, 250) := by
+  refine ⟨by rw [← FxVerif.Proofs.C08Cache.coherentTxB_iff]; decide, ?_⟩
+  rw [iTxResult_eq]
+  decide
+
 end StateDBSource
 
 end FxVerif.Props.C08
